@@ -338,16 +338,18 @@ end
 
 def atomOk (env : Env) (a : Atom) : Bool := opndOk (evalAtom env a)
 
+def fargsAtomsOk (env : Env) : FArgs → Bool
+  | .one a => atomOk env a
+  | .tup as => as.all (atomOk env)
+  | .map kvs => kvs.all fun p => atomOk env p.2
+
 def siteOk (env : Env) : SExpr → Bool
   | .add _ a => atomOk env a
   | .radd _ a => atomOk env a
   | .join _ items => items.all (atomOk env)
   | .esc a _ => atomOk env a
   | .fmt f args =>
-      (match args with
-        | .one a => atomOk env a
-        | .tup as => as.all (atomOk env)
-        | .map kvs => kvs.all fun p => atomOk env p.2) &&
+      fargsAtomsOk env args &&
       (match mMod escapePy f (evalFArgs env args) with
         | .ok _ => true
         | .error _ => false)
